@@ -9,10 +9,11 @@ sys.path.insert(0, os.path.dirname(HERE))
 def main(argv=None):
     ap = argparse.ArgumentParser()
     ap.add_argument('prop')
-    ap.add_argument('--tier', default=os.environ.get('VERIF_TIER', 'quick'), choices=['quick', 'thorough'])
+    ap.add_argument('--tier', default=os.environ.get('VERIF_TIER', 'quick') or 'quick', choices=['quick', 'thorough'])
     ap.add_argument('--replay', default=None)
     ap.add_argument('--repo', default=None)
     ap.add_argument('--no-write', action='store_true')
+    ap.add_argument('--no-selfcheck', action='store_true')
     a = ap.parse_args(argv)
     if a.repo:
         os.environ['VERIF_REPO'] = a.repo
@@ -28,13 +29,20 @@ def main(argv=None):
             prog = program.Program(a.repo)
             worst = 0
             for p in props:
-                code, _ = core.run_property(p, a.tier, repo=a.repo, write=not a.no_write, prog=prog)
+                code, _ = core.run_property(p, a.tier if a.no_selfcheck else 'quick', repo=a.repo, write=not a.no_write, prog=prog)
                 worst = max(worst, code)
             return worst
-        code, _ = core.run_property(a.prop, a.tier, repo=a.repo, write=not a.no_write)
-        if code == 0 and a.tier == 'thorough':
+        extra = None
+        sc_ok = True
+        if a.tier == 'thorough' and not a.no_selfcheck:
             from sa import selfcheck
-            code = selfcheck.run(a.prop)
+            sc_ok, summary = selfcheck.run(a.prop)
+            extra = dict(selfcheck=summary)
+        code, _ = core.run_property(a.prop, a.tier, repo=a.repo, write=not a.no_write, extra_coverage=extra)
+        if not sc_ok:
+            print('ANALYSIS-ERROR property=%s self-validation of the checker failed (a seeded break was missed or a refactor twin raised an alarm); '
+                  'the verdict above is not to be believed' % a.prop)
+            return max(code, 2)
         return code
     except SystemExit:
         raise
